@@ -532,6 +532,28 @@ def rule_lockorder(ctx, rep):
                           "the thread sleeping on %s holds %s, which the waking path in %s must acquire before it reaches FUTEX_WAKE: neither can proceed" % (word, clash, wk.fn.name),
                           [wt.where(), wk.where()])
         pat.require(n >= 3, "%s: only %d futex sleeper/waker pairs matched" % (fl, n))
+        # thread lifecycle vs. the grace period's sleep: a lock the grace period keeps while it sleeps / spins waiting for readers
+        # (it drops the registry lock exactly so that threads can come and go) is never needed by (un)registration or by
+        # qsbr's offline/online - a reader being waited for may itself be waiting for such a thread (join, condition, pipe)
+        sy = g.fns.get(F.pfx + "_synchronize_rcu")
+        pat.require(sy is not None, "%s: synchronize_rcu" % fl)
+        hs = g.held(sy)
+        sleeps = [i for i in sy.all_insts() if mm.is_futex(i, mm.FUTEX_WAIT) or (i.op == "call" and i.callee in ("usleep", "poll", "nanosleep", "sched_yield"))]
+        pat.require(sleeps, "%s: synchronize_rcu sleep sites" % fl)
+        H = set()
+        for i in sleeps:
+            H |= set(hs.get(i.id, ()))
+        pat.require(H, "%s: no lock held while the grace period sleeps (anchor changed)" % fl)
+        acq = g.acq_trans()
+        life = [x for x in (F.pfx + "_register_thread", F.pfx + "_unregister_thread", F.pfx + "_thread_offline", F.pfx + "_thread_online", F.pfx + "_register", F.pfx + "_unregister",
+                            "urcu_bp_thread_exit_notifier") if x in g.fns]
+        pat.require(len(life) >= 2, "%s: thread lifecycle entry points" % fl)
+        for x in life:
+            clash = sorted(acq.get(x, set()) & H)
+            rep.check(not clash, "C02.lockorder", "%s.lifecycle-vs-gp-sleep.%s" % (fl, x), "%s needs none of the locks the grace period sleeps with (%s)" % (x, sorted(H)),
+                      "%s acquires %s, which synchronize_rcu keeps while it sleeps waiting for readers: a reader that (inside its critical section) waits for this thread - "
+                      "pthread_join of a worker that unregisters on exit - closes a cycle grace period -> reader -> thread -> grace period, synchronize_rcu never returns" % (x, clash),
+                      [sleeps[0].where()])
 
 
 RULES = [
